@@ -5,6 +5,7 @@ import Driver.C10
 import Driver.C05
 import Driver.C03
 import Driver.C07
+import Driver.C08
 open Driver
 
 def handle (line : String) : String :=
@@ -15,6 +16,7 @@ def handle (line : String) : String :=
   | "c05" :: args => c05 args
   | "c03" :: args => c03 args
   | "c07" :: args => c07 args
+  | "c08v" :: args => c08v args
   | "c10" :: args => c10 args
   | "c12" :: args => c12 args
   | "c14" :: args => c10 args
